@@ -578,11 +578,13 @@ class Sim:
         for cid, con in self.contests.items():
             con.sample_size = int(sizes.get(cid, 0))
 
-    def draw(self, prev=None):
+    def draw(self, prev=None, only=None):
         """Style-based audits: the library's consistent sampling.  Without style information the sample is a simple
-        random sample of all cards: the first n cards in sample-number order (n = the common sample size)."""
+        random sample of all cards: the first n cards in sample-number order (n = the common sample size).
+        only: the contest identifiers handed to a CONTINUED draw (the contests still being escalated)."""
         if self.use_style:
-            return self.L["CVR"].consistent_sampling(cvr_list=self.cvr_list, contests=self.contests, sampled_cvr_indices=prev)
+            contests = self.contests if only is None else {c: self.contests[c] for c in self.contests if c in only}
+            return self.L["CVR"].consistent_sampling(cvr_list=self.cvr_list, contests=contests, sampled_cvr_indices=prev)
         n = max(con.sample_size for con in self.contests.values())
         order = sorted(range(len(self.cvr_list)), key=lambda i: self.cvr_list[i].sample_num)
         return order[:n]
